@@ -15,6 +15,7 @@ def draw_world(rng, copy_emulation=True):
         "tmpkey": rng.randrange(1 << 30),
         "copy_chunk": rng.choice(COPY_CHUNKS) if copy_emulation else None,
         "cold": rng.random() < 0.15,
+        "xdev": rng.random() < 0.3,
     }
 
 
